@@ -75,7 +75,7 @@ fn err_json(e: &CompilerError, sources: &[String]) -> Value {
         if let LexerErrorType::MatchingError(rd) = &le.kind {
             v["report"] = json!({"line": rd.line, "column": rd.column, "offset": rd.offset,
                 "context_start_line": rd.context_start_line, "context_start_offset": rd.context_start_offset,
-                "reason": rd.reason, "unexpected_eof": rd.unexpected_eof});
+                "reason": rd.reason, "unexpected_eof": rd.unexpected_eof, "src_file": rd.src_file});
         }
     }
     v
@@ -98,6 +98,21 @@ fn compile(cmd: &Value) -> Value {
         "ir" => {
             IR_DUMP.with(|d| d.borrow_mut().clear());
             add_sources(Compiler::<IrDump, _>::new(), &sources).compile_to_string()
+        }
+        // the sources handed over as FILES (written to a scratch directory that is removed afterwards)
+        _ if cmd["files"].as_bool().unwrap_or(false) => {
+            let dir = std::env::temp_dir().join(format!("verif-c17-{}", std::process::id()));
+            let _ = std::fs::remove_dir_all(&dir);
+            let _ = std::fs::create_dir_all(&dir);
+            let paths: Vec<std::path::PathBuf> = sources.iter().enumerate().map(|(i, s)| { let p = dir.join(format!("src{i}.asn")); let _ = std::fs::write(&p, s); p }).collect();
+            let mut it = paths.iter();
+            let mut c = Compiler::<RasnBackend, _>::new_with_config(rasn_config(&cmd["config"])).add_asn_by_path(it.next().cloned().unwrap_or_default());
+            for p in it {
+                c = c.add_asn_by_path(p.clone());
+            }
+            let r = c.compile_to_string();
+            let _ = std::fs::remove_dir_all(&dir);
+            r
         }
         _ => add_sources(Compiler::<RasnBackend, _>::new_with_config(rasn_config(&cmd["config"])), &sources).compile_to_string(),
     };
